@@ -472,7 +472,56 @@ def r7_applied_list_always_published(ctx):
                    'migration is pending', n.ast)
 
 
+def r8_batch_simulation_unconditional(ctx):
+    """_build_batches' generate_mutations_info() call is the only place where
+    a task's pending mutations are simulated on the evolver's real project
+    signature (prepare() works on a clone).  MoveToDjangoMigrations produces
+    no SQL, so if the call is skipped when the task has no SQL, the stored
+    signature keeps upgrade_method = evolutions although the migrations were
+    recorded and run - and the next run hands the app over again.  Whether
+    the call happens may depend only on there being pending mutations (and on
+    the app being new)."""
+    ctx.rule('R-C10.8')
+    p = ctx.program
+    from ..util import unit
+    f = p.func(TASK, 'EvolveAppTask._build_batches')
+    n = 0
+    ALLOWED = ('pending_mutations', 'app_sig_is_new', 'hinted', '_evolutions',
+               'batch_type', 'UpgradeMethod', 'task_evolutions', 'node_type',
+               'prev_batch', 'new_models', 'batch_info', 'batches')
+    for fn in unit(ctx, f):
+        g = ctx.cfg(fn)
+        for node in g.nodes:
+            for c in node.calls():
+                if call_name(c) != 'generate_mutations_info':
+                    continue
+                n += 1
+                bad = []
+                for t in g.nodes:
+                    if t.kind not in ('test', 'operand') or not (
+                            g.guarded_by(node, t, 'T') or
+                            g.guarded_by(node, t, 'F')):
+                        continue
+                    txt = unparse(t.ast)
+                    if not any(a in txt for a in ALLOWED):
+                        bad.append(txt)
+                if bad:
+                    ctx.finding(fn, c, 'whether the batch builder simulates a '
+                                'task\'s pending mutations on the real '
+                                'signature also depends on "%s": a hand-over '
+                                'whose only pending mutation is '
+                                'MoveToDjangoMigrations (no SQL) never '
+                                'reaches the stored signature' % '; '.join(
+                                    sorted(set(bad))),
+                                key='batch-simulation-conditional')
+                else:
+                    ctx.ok(fn, 'pending mutations are always simulated on '
+                           'the real signature', c)
+    ctx.floor('generate_mutations_info calls in the batch builder', n, 1)
+
+
 def run(ctx):
+    r8_batch_simulation_unconditional(ctx)
     r7_applied_list_always_published(ctx)
     r6_recorded_list_is_only_mark_applied(ctx)
     r5_upgrade_method_compared_by_value(ctx)
